@@ -674,7 +674,6 @@ func permitAllACL(P *Prog, T types.Type) bool {
 	return ok && n > 0
 }
 
-
 // aclCheckSites: what the ACL may be asked.  The denial half of the property is complete with the
 // admission check and the send guard; any *other* consultation of the ACL can only withhold data from
 // authorised callers.  Every invoke of RPCACL.Check in package subscribe is therefore one of
@@ -683,6 +682,7 @@ func permitAllACL(P *Prog, T types.Type) bool {
 //     is false for every real table) - a dominating `target != "*"` edge in the function, or at every
 //     call site of the unexported helper that holds the call;
 //   - per message: the argument is the target of the prefix of a message being delivered.
+//
 // A verdict asked about anything else (a name enumerated from the cache when the RPC starts, ...)
 // decides delivery from a state that changes afterwards.
 func aclCheckSites(c *Ctx, rule string) {
